@@ -468,7 +468,7 @@ type vOpEnv struct {
 func vOpSetup() *vOpEnv {
 	pset := []Properties{{3, 0, 2}, {0, 2, 0}, {1, 1, 4}}
 	if vThorough() {
-		pset = append(pset, Properties{4, 0, 0}, Properties{0, 4, 3}, Properties{8, 4, 4})
+		pset = append(pset, Properties{4, 0, 0}, Properties{0, 4, 3}, Properties{5, 2, 1}) // lc+lp up to 7; 8/4 would need a 3M-cell table initialised per run
 	}
 	props := pset[vConcretize(int(vNondetU8("props"))%len(pset))]
 	s := newState(props)
